@@ -57,6 +57,8 @@ type gen struct {
 	w     *bufio.Writer
 	st    *stats
 	drain bool // after the main phases: delete every pool key, look at the empty tree, start over
+	wideColl bool   // collation pool of stem+ideograph strings (wide nodes)
+	collStem string
 }
 
 func (g *gen) emit(format string, a ...any) {
@@ -247,6 +249,9 @@ var collParts = []string{
 
 func (g *gen) collString() string {
 	r := g.r
+	if g.wideColl { // one stem followed by one ideograph: up to 256 children under one sort-key byte
+		return g.collStem + string(rune(0x4E00+r.n(600)))
+	}
 	n := 1 + r.n(3)
 	var sb strings.Builder
 	for i := 0; i < n; i++ {
@@ -440,11 +445,16 @@ func (g *gen) history(tid string, ks kindSpec, prof string, nops int) {
 		}
 		probe = func() string { return xhex(g.alphaProbe(bp)) }
 	case kind == "coll":
+		if r.chance(25) {
+			g.wideColl, g.collStem = true, pick(r, []string{"", "a", "日本", "zebra"})
+			poolN = 60 + r.n(240)
+			defer func() { g.wideColl = false }()
+		}
 		col := strings.SplitN(ks.variant, ":", 2)[1]
 		if strings.HasPrefix(ks.variant, "runes") {
 			col = "root"
 		}
-		pool = g.collPool(col, min(poolN, 80))
+		pool = g.collPool(col, min(poolN, 300))
 		c := collatorByName(col)
 		buf := &collate.Buffer{}
 		probe = func() string {
@@ -456,15 +466,19 @@ func (g *gen) history(tid string, ks kindSpec, prof string, nops int) {
 				t, _ := collKeyText(c, buf, collEquivalent(g, o))
 				return t
 			}
+			if r.chance(40) { // a proper prefix of a stored string: its sort key ends inside the compressed paths
+				rs := []rune(string(xbytes(collOrig(pick(r, pool)))))
+				if len(rs) > 1 {
+					t, _ := collKeyText(c, buf, string(rs[:1+r.n(len(rs)-1)]))
+					return t
+				}
+			}
 			t, _ := collKeyText(c, buf, g.collString())
 			return t
 		}
 	case strings.HasPrefix(kind, "comp:"):
-		var strs [][]byte
-		for i := 0; i < 6; i++ {
-			s := g.alphaPool(1)[0]
-			strs = append(strs, s)
-		}
+		// string fields come from one pool, so that they share long stems (compressed paths beyond the inline limit)
+		strs := g.alphaPool(6 + r.n(20))
 		seen := map[string]bool{}
 		for i := 0; i < 4*poolN && len(pool) < poolN; i++ {
 			k := g.tupleKey(kind[5:], strs)
@@ -475,8 +489,26 @@ func (g *gen) history(tid string, ks kindSpec, prof string, nops int) {
 			}
 		}
 		probe = func() string {
-			if r.chance(70) {
+			if r.chance(60) {
 				return pick(r, pool)
+			}
+			if r.chance(40) { // a look-alike: a stored tuple with one byte of its string field changed or cut
+				parts := strings.Split(pick(r, pool), ",")
+				last := parts[len(parts)-1]
+				if strings.HasPrefix(last, "x") && len(last) > 3 {
+					b := xbytes(last)
+					i := r.n(len(b))
+					if r.chance(70) {
+						b[i] ^= byte(1 + r.n(3))
+						if b[i] == 0 {
+							b[i] = 1
+						}
+					} else {
+						b = b[:i]
+					}
+					parts[len(parts)-1] = xhex(b)
+					return strings.Join(parts, ",")
+				}
 			}
 			return g.tupleKey(kind[5:], strs)
 		}
@@ -521,7 +553,7 @@ func (g *gen) history(tid string, ks kindSpec, prof string, nops int) {
 			g.emit("I %s %s %d", tid, pick(r, pool), 1+r.n(1000))
 			live++
 		case x < ins+del:
-			if r.chance(85) {
+			if r.chance(75) {
 				g.emit("D %s %s", tid, pick(r, pool))
 			} else {
 				g.emit("D %s %s", tid, probe())
@@ -548,7 +580,11 @@ func (g *gen) history(tid string, ks kindSpec, prof string, nops int) {
 			g.emit("RNG %s %s %s %s", tid, a, b, g.stops(p, 6))
 		default:
 			if !hasPfx {
-				g.emit("SIZE %s", tid)
+				if r.chance(3) {
+					g.emit("PFX %s %s -", tid, probe())
+				} else {
+					g.emit("SIZE %s", tid)
+				}
 				continue
 			}
 			pk := probe()
@@ -1040,6 +1076,10 @@ func genMain(args []string) {
 						g.fanout(fmt.Sprintf("t%d", h), fk, prof)
 						continue
 					}
+				}
+				if h%4 == 1 && (ks.kind == "alpha" || ks.kind == "coll" || ks.kind == "comp") {
+					g.longpath(fmt.Sprintf("t%d", h), ks, prof)
+					continue
 				}
 				n := nops/2 + g.r.n(nops)
 				if g.r.chance(10) {
